@@ -356,9 +356,9 @@ def run_check(pid, tier, seed):
             elif not orc_fail:
                 corr_broken.append((su.name, mism[0]))
         suites_ev.append({"suite": su.name, "requests": len(reqs), "distinct_nontrivial": len(nontriv),
-                          "mismatches": len(mism), "oracle_failures": len(orc_fail), "distribution": dist,
+                          "mismatches": len(mism), "oracle_failures": len(orc_fail), "distribution": top_dist(dist),
                           "exhaustive": bool(su.exhaustive and su.exhaustive(tier)), "rule": su.rule,
-                          "samples": [{"request": reqs[j], "impl": impl[j]} for j in sample_idx(len(reqs), rng)],
+                          "samples": [{"request": clip(reqs[j]), "impl": clip(impl[j])} for j in sample_idx(len(reqs), rng)],
                           "wall_s": round(time.time() - ts, 2)})
     seen = set()
     for k, req in known_lines:
@@ -376,6 +376,19 @@ def run_check(pid, tier, seed):
     write_evidence(pid, tier, seed, thm, suites_ev, len(violations), t0,
                    known=[k["id"] for k, _ in known_lines], forb=forb)
     return 1 if violations else 0
+
+
+def clip(s, n=400):
+    """evidence files stay small: long requests/results are cut (the full case is reproducible from seed and generator)"""
+    return s if len(s) <= n else s[:n] + "...(%d chars)" % len(s)
+
+
+def top_dist(dist, n=40):
+    items = sorted(dist.items(), key=lambda kv: -kv[1])
+    out = dict(items[:n])
+    if len(items) > n:
+        out["(other kinds)"] = sum(v for _, v in items[n:])
+    return out
 
 
 def sample_idx(n, rng):
